@@ -530,7 +530,9 @@ def run(ctx: Ctx) -> None:
                 nodes.append({"op": "lin", "ins": [a, a], "w": [1, 1]})
             else:
                 nodes.append({"op": "lin", "ins": [pick(), pick()], "w": [1, 1]})
-        outs = sorted(set(rng.sample(range(n_in, len(nodes)), k=min(rng.randint(1, 2), len(nodes) - n_in))))
+        # one output near the end (so that most nodes lie on a path to an output), possibly a second one anywhere
+        outs = sorted({rng.randrange(max(n_in, len(nodes) - 2), len(nodes))} |
+                      ({rng.randrange(n_in, len(nodes))} if rng.random() < 0.5 else set()))
         if rng.random() < 0.3:
             outs = []  # forward only
         seed = [{"node": o, "g": [rng.randint(-2, 2) for _ in range(4)]} for o in outs]
@@ -591,6 +593,19 @@ def run(ctx: Ctx) -> None:
             continue
         via_dynamo = ci % 10 == 9
         key = {"path": "dag-dynamo" if via_dynamo else "dag-direct", "spec": spec}
+        # input distribution of the correspondence (goes into the evidence histogram)
+        uses_: Dict[int, int] = {}
+        for nd in spec["nodes"]:
+            ctx.bump("dag/op:" + ("input" if nd["op"] == "input" else "mul" if nd["op"] == "mul" else
+                                  {(1, 1): "add", (1, -1): "sub"}.get(tuple(nd["w"]), "scale")))
+            for a_ in nd.get("ins", []):
+                uses_[a_] = uses_.get(a_, 0) + 1
+            if len(nd.get("ins", [])) == 2 and nd["ins"][0] == nd["ins"][1]:
+                ctx.bump("dag/same-tensor-twice")
+        ctx.bump("dag/fan-out-nodes", sum(1 for v_ in uses_.values() if v_ > 1))
+        ctx.bump("dag/forward-only" if not spec["seed"] else f"dag/outputs:{len(spec['seed'])}")
+        ctx.bump("dag/nodes-without-gradient", sum(1 for e in log if e["g"] is None))
+        ctx.bump("dag/nodes-with-gradient", sum(1 for e in log if e["g"] is not None))
         ctx.count(key, bucket=key["path"])
         xs = [torch.tensor(nd["v"], dtype=torch.float64) for nd in spec["nodes"] if nd["op"] == "input"]
         graph = None
